@@ -34,7 +34,7 @@ from ..cfg import cfg_of
 from ..flow import describe_path, find_path as flow_find_path, no_exc as _no_exc
 from ..linexpr import Env, Lin, NONE, Seq, fresh, local_edges, loop_heads, paths_from, run_steps, segments
 from ..model import AnchorError, Func, UnknownIdiom, dotted, short, unparse
-from .c07_helpers import (ASGI, BUDGET, WSGI, DelEnv, Inliner, Verdicts, dealiased_view, asgi_constructor, asgi_drained, asgi_indexing, asgi_initial_position, asgi_keys, asgi_loops,
+from .c07_helpers import (ASGI, BUDGET, WSGI, DelEnv, Inliner, Verdicts, dealiased_view, asgi_cls, asgi_func, asgi_constructor, asgi_drained, asgi_indexing, asgi_initial_position, asgi_keys, asgi_loops,
                           asgi_positions, lazy_wrapping, require_attrs, run_steps_inl)
 from .common import ancestors, enclosing_map, implied, walk_self
 
@@ -1466,12 +1466,12 @@ def _budget_writes(run, w, v, forced):
 def r4_conservation(run):
     v = Verdicts(run)
     for name in ('read', 'readall', '_iter_content', 'exhaust'):
-        f = run.project.func('%s.%s' % (ASGI, name))
+        f = asgi_func(run.project, name)
         asgi_loops(run, v, f, mode='conservation')
         asgi_positions(run, v, f)
     run.assume('C07 R4: nothing else operates on the stream while its body iterator is suspended at a `yield` (documented exclusive use)')
     for name in ('exhaust', 'readall', '_iter_content'):
-        asgi_drained(run, v, run.project.func('%s.%s' % (ASGI, name)))
+        asgi_drained(run, v, asgi_func(run.project, name))
     asgi_initial_position(run, v)
     v.flush()
 
@@ -1479,10 +1479,10 @@ def r4_conservation(run):
 def r5_termination(run):
     v = Verdicts(run)
     for name in ('read', 'readall', '_iter_content', 'exhaust'):
-        f = run.project.func('%s.%s' % (ASGI, name))
+        f = asgi_func(run.project, name)
         asgi_loops(run, v, f, mode='termination')
         asgi_keys(run, v, f)
-    for f in sorted(run.project.cls(ASGI).methods.values(), key=lambda f: f.qual):
+    for f in sorted(asgi_cls(run.project).methods.values(), key=lambda f: f.qual):
         asgi_indexing(run, v, f)
     asgi_constructor(run, v)
     v.flush()
